@@ -31,9 +31,9 @@ RULE = ("seeded meshes (rectangular shapes 3x3..7x6, Delaunay vertex sets 5..20 
         "log-uniform coefficients, signal scales and positive adapt images; a case = (mesh, scheme, parameters); distinct by hash of "
         "(mesh vertices/shape, scheme name, parameters); non-trivial = >= 4 parameters and the matrix is not diagonal (or is a "
         "zeroth scheme, which is diagonal by definition and counted trivial)")
-BOUNDS = {"quick": "60 meshes x 7-9 schemes + 40 multi-object inversions", "thorough": "1500 meshes x 7-9 schemes + 1000 inversions"}
+BOUNDS = {"quick": "60 meshes x 7-9 schemes + 40 multi-object inversions + 12 large (up to 16x14) kernel meshes", "thorough": "1500 meshes x 7-9 schemes + 1000 inversions + 240 large kernel meshes"}
 EXHAUSTIVE = {"quick": False, "thorough": False}
-ASSUMPTIONS = ["kernel schemes: only when cond(covariance) <= 1e6 (otherwise the inverse is numerically meaningless; counted and skipped)",
+ASSUMPTIONS = ["kernel schemes: strict PD only when cond(covariance) <= 1e6; for 1e6 < cond <= 1e9 (large meshes, broad kernels) the claim is min eig >= -n*u*cond*lambda_max (PSD down to the rounding floor of the dense inverse); beyond 1e9 counted and skipped",
                "strict positive definiteness is decided numerically: min eigenvalue > 0 and Cholesky succeeds; cases with lambda_max*1e-16 "
                ">= 1e-9 (ridge below rounding) are counted and skipped for the PD sub-claim only"]
 QUICK_JOBS = 12
@@ -48,6 +48,8 @@ def plan(tier, seed):
     step = 4 if tier == "quick" else 20
     units = [{"kind": "mesh", "start": s, "stop": min(n, s + step), "w": step} for s in range(0, n, step)]
     units += [{"kind": "blocks", "start": s, "stop": min(nb, s + step), "w": step} for s in range(0, nb, step)]
+    nl = 12 if tier == "quick" else 240
+    units += [{"kind": "large", "start": s, "stop": s + 1, "w": 3} for s in range(nl)]
     return units
 
 
@@ -208,6 +210,63 @@ def run_mesh(ctx, i):
                                  "min_eig": float(np.linalg.eigvalsh((Hm + Hm.T) / 2).min())})
 
 
+def run_large_kernel(ctx, i):
+    """Kernel schemes on meshes many correlation lengths across (up to 16x14 = 224 pixels), where a covariance that is not a
+    positive-definite function (e.g. a truncated Gaussian) loses definiteness. The covariance is ill-conditioned there
+    (cond up to 1e9), so the claim is the noise-floor-aware one: min eig(H) >= -n*u*cond(C)*lambda_max(H); the strict PD claim
+    is kept for cond(C) <= 1e6."""
+    aa = ctx.aa
+    rng = gen.rng_for(ctx.seed, NO, 3, i)
+    if not ctx.begin("large_kernel:%d" % i):
+        return
+    shape = (int(rng.integers(9, 17)), int(rng.integers(9, 15)))
+    sp = float(rng.uniform(0.3, 1.2))
+    yy, xx = np.mgrid[0:shape[0], 0:shape[1]]
+    src = np.stack([yy.ravel() * sp * 1.07, xx.ravel() * sp], axis=1) + 0.01 * rng.normal(size=(shape[0] * shape[1], 2))
+    mesh = aa.Mesh2DRectangular.overlay_grid(shape_native=shape, grid=aa.Grid2DIrregular(values=src))
+
+    class Obj:
+        pass
+    lo = Obj()
+    lo.source_plane_mesh_grid = mesh
+    lo.params = shape[0] * shape[1]
+    V = _np(mesh).astype(float)
+    d = np.sqrt(((V[:, None, :] - V[None, :, :]) ** 2).sum(-1))
+    spacing = float(np.min(d[d > 0]))
+    for name in ("GaussianKernel", "ExponentialKernel"):
+        f = float(rng.uniform(1.0, 1.6)) if name == "GaussianKernel" else float(rng.uniform(1.0, 4.0))
+        sc = f * spacing
+        coef = logu(rng, 0.1, 10.0)
+        r = getattr(aa.reg, name)(coefficient=coef, scale=sc)
+        cov = (np.exp(-d ** 2 / (2 * sc ** 2)) if name == "GaussianKernel" else np.exp(-d / sc)) + 1e-8 * np.eye(len(V))
+        cond = float(np.linalg.cond(cov))
+        W = dict(mesh={"kind": "rect", "shape": shape}, scheme_params={"coefficient": coef, "scale": sc, "scale_in_pixel_spacings": f}, cond_covariance=cond)
+        if cond > 1e9:
+            ctx.skipped["kernel:cond(covariance)>1e9"] += 1
+            continue
+        ok, Hm = ctx.guarded("matrix.construct", lambda: _np(r.regularization_matrix_from(linear_obj=lo)).astype(float))
+        if not ok:
+            continue
+        P = lo.params
+        ctx.check(Hm.shape == (P, P) and np.isfinite(Hm).all(), "shape", scheme=name, got=Hm.shape, **W)
+        if Hm.shape != (P, P) or not np.isfinite(Hm).all():
+            continue
+        scH = float(np.abs(Hm).max())
+        floor = P * 2.2e-16 * cond
+        ctx.check(float(np.abs(Hm - Hm.T).max()) <= max(1e-10, floor) * scH, "symmetric", scheme=name, maxdiff=float(np.abs(Hm - Hm.T).max()), scale=scH, **W)
+        ev = np.linalg.eigvalsh((Hm + Hm.T) / 2)
+        if cond <= 1e6:
+            try:
+                np.linalg.cholesky(Hm)
+                chol = True
+            except np.linalg.LinAlgError:
+                chol = False
+            ctx.check(ev.min() > 0 and chol, "pd", scheme=name, min_eig=float(ev.min()), cholesky=chol, **W)
+        ctx.check(ev.min() >= -max(1e-10, floor) * float(ev.max()), "psd", scheme=name, min_eig=float(ev.min()), max_eig=float(ev.max()), noise_floor=floor, **W)
+        ctx.case("large", name, shape, sc, coef, V, nontrivial=True, cls=["scheme:" + name, "mesh:rect_large", "cond(C):1e%d" % int(np.floor(np.log10(cond)))],
+                 sample=lambda: {"scheme": name, "mesh": shape, "scale_in_pixel_spacings": f, "cond_covariance": cond, "min_eig": float(ev.min())})
+
+
 def run_blocks(ctx, i):
     aa = ctx.aa
     rng = gen.rng_for(ctx.seed, NO, 2, i)
@@ -263,4 +322,4 @@ def run_blocks(ctx, i):
 
 def run_unit(ctx, u):
     for i in range(u["start"], u["stop"]):
-        (run_mesh if u["kind"] == "mesh" else run_blocks)(ctx, i)
+        {"mesh": run_mesh, "blocks": run_blocks, "large": run_large_kernel}[u["kind"]](ctx, i)
